@@ -365,6 +365,23 @@ def run(ctx):
                     if s_["k"] == "assign" and s_["rv"]["k"] == "agg" and s_["rv"].get("adt") == da["def"]:
                         (empty_v if i in after_none and i not in before else other_v).add(s_["rv"].get("variant"))
         ring_empty = empty_v - other_v
+        if not ring_empty:
+            # the outcome held in a variable that starts as one variant and is overwritten on the early exits (`let mut status = Drained;
+            # .. if past_deadline { status = HitDeadline; break }`): the initial variant is what the ring-empty exit returns, provided
+            # every overwrite leaves the loop (no pop can follow it)
+            for d in F.all_bodies(BG):
+                if not in_bg(F, d) or not (da["def"] in (d.d.get("output") or "") or (d.d.get("output") or "") in drain_status(F)[1]):
+                    continue
+                pops = [c for c in d.calls() if is_pop(c)]
+                if not pops:
+                    continue
+                ddom = d.dominators()
+                built = [(i, s_["rv"].get("variant")) for i in d.live_blocks() for s_ in d.stmts(i)
+                         if s_["k"] == "assign" and s_["rv"]["k"] == "agg" and s_["rv"].get("adt") == da["def"]]
+                initial = {v for i, v in built if all(dominates(d, i, p_.bb, ddom) and i != p_.bb for p_ in pops)}
+                later = [(i, v) for i, v in built if v not in initial]
+                if len(initial) == 1 and later and all(not any(p_.bb in d.reachable(i) for p_ in pops) for i, v in later):
+                    ring_empty = set(initial) - {v for _, v in later}
         ctx.check(bool(ring_empty), "R04.6", da["def"] + "#ring-empty-outcome", "", "cannot identify the drain outcome that means `the ring was empty` (%s / %s)" % (sorted(empty_v), sorted(other_v)),
                   "ring-empty outcome: %s; outcomes that can leave entries queued: %s" % (sorted(ring_empty), sorted(allv - ring_empty)))
 
@@ -392,7 +409,14 @@ def run(ctx):
             st_params = [i for i in range(1, tb.arg_count + 1) if tb.locals[i]["ty"] == da["def"] or tb.locals[i]["ty"] in drain_status(F)[1]]
             for sp in st_params:
                 for c in tb.calls():
-                    if c.name in ("eq", "ne") and any(any(y[0] == "arg" and y[1] == sp for y in Prov(tb).operand(a2)) for a2 in c.args):
+                    acc_res = None
+                    if c.name not in ("eq", "ne") and c.args and not c.dest.get("p") and tb.local_ty(c.dest["l"]) == "bool" and \
+                            any(y[0] == "arg" and y[1] == sp for y in Prov(tb).operand(c.args[0])):
+                        # a private predicate of the outcome bundle (`outcome.hit_deadline()`): its body is the comparison
+                        for hb in local_callee_bodies(F, c):
+                            if hb.crate == BG and hb.arg_count == 1:
+                                acc_res = drained_set(hb, {"copy": {"l": 0, "p": []}})
+                    if acc_res is not None or (c.name in ("eq", "ne") and any(any(y[0] == "arg" and y[1] == sp for y in Prov(tb).operand(a2)) for a2 in c.args)):
                         n46 += 1
                         vs = set()
                         for a2 in c.args:
@@ -400,6 +424,8 @@ def run(ctx):
                                 if y[0] == "const" and isinstance(y[1], tuple) and y[1][0] == "variant":
                                     vs.add(y[1][2])
                         res = vs if c.name == "eq" else allv - vs
+                        if acc_res is not None:
+                            vs, res = set(acc_res), set(acc_res)
                         # which outcome of the comparison lets the wakers be released?  (`if counter == 0 || status == Drained { wake }` and
                         # `if counter != 0 && status != Drained { return }` are the same decision)
                         rel_bbs = {c2.bb for b2, c2 in trackers if b2 is tb} | virtual_release.get(tb.def_, set())
